@@ -457,6 +457,9 @@ def sheet_events(rng, eid, W):
     return [ev]
 
 
+_USAGE_OFF = [False]
+
+
 def usage_event(rng, eid):
     """usage table of a real forward schedule: one line per day between first and last reservation"""
     pj = common.pjplan()
@@ -465,8 +468,16 @@ def usage_event(rng, eid):
           "first": 0, "last": 0}
     try:
         common.set_now(es.inst(I["now"]))
+        if _USAGE_OFF[0]:
+            common.set_now(None)
+            return []
         w, _, _ = es.build_wbs(I)
-        sc = es.make_scheduler(I).calc(w)
+        o, sc = es.guarded(lambda: es.make_scheduler(I).calc(w), 8.0)
+        if o == "timeout":
+            _USAGE_OFF[0] = True         # a scheduler that does not end is C14's business: no further usage tables
+        if o != "ok":
+            common.set_now(None)
+            return []
         rows = sc.resource_usage.rows()
         if not rows:
             common.set_now(None)
